@@ -595,6 +595,23 @@ class JSONPathEnvironment:
         if isinstance(left, bool):
             return isinstance(right, bool) and left == right
 
+        # Compare arrays and objects element-wise, so nested booleans are
+        # not identified with numbers either.
+        if (
+            isinstance(left, Sequence)
+            and isinstance(right, Sequence)
+            and not isinstance(left, str)
+            and not isinstance(right, str)
+        ):
+            return len(left) == len(right) and all(
+                self._eq(a, b) for a, b in zip(left, right)  # noqa: B905
+            )
+
+        if isinstance(left, Mapping) and isinstance(right, Mapping):
+            return left.keys() == right.keys() and all(
+                self._eq(val, right[key]) for key, val in left.items()
+            )
+
         return left == right
 
     def _lt(self, left: object, right: object) -> bool:
